@@ -691,6 +691,7 @@ def run(chk):
     _depthbalance_rule(chk, prog)
     _markspill_rule(chk, prog)
     _hookstep_rule(chk, prog)
+    _reentrybudget_rule(chk, prog, cg, comps)
 
 
 def _freshbudget_rule(chk, prog, cg):
@@ -1010,4 +1011,75 @@ def _hookstep_rule(chk, prog):
                               "`%s` re-enters the recursive reader / writer from an abstract type's hook with the depth it was given, "
                               "not one more: values nested through abstract types (a channel holding a channel holding ...) are not "
                               "counted by the recursion guard and overflow the native stack" % c.text()[:70])
+    chk.floor(rule, 2, n)
+
+
+VM_ENTRIES = ("janet_call", "janet_continue", "janet_continue_signal", "janet_pcall", "janet_mcall")
+
+
+def _reentrybudget_rule(chk, prog, cg, comps):
+    """The recursive routines inside the VM's own call cycle (the PEG matcher, the compiler) bound their native depth
+    with a counter that starts afresh in every activation.  Where such a routine calls back into Janet code - a cmt /
+    replace function, a macro - the callee can start the same routine again with a full budget.  Only the number of
+    such nestings is limited (janet_vm.stackn, 1024), so the native stack is bounded by the PRODUCT of the two limits,
+    not by either: 200 nested peg/match calls of depth 900 each overflow the C stack."""
+    rule = "C19-REENTRYBUDGET"
+    chk.rule(rule, "a depth-guarded recursive routine with a per-activation budget calls back into Janet code only with the depth it holds charged to the VM's nested-call budget (janet_vm.stackn)")
+    vmcomp = None
+    for comp in comps:
+        if any(f[1] == "run_vm" for f in comp):
+            vmcomp = set(comp)
+    if vmcomp is None:
+        raise AnalysisBroken("the VM's recursion component was not found")
+    n = 0
+    for fid in sorted(vmcomp, key=str):
+        fn = cg.funcs[fid]
+        # per-activation counters: a field of a state object the entry point initialises
+        steps = [x for x in fn.nodes if x.k == "un" and x.op in ("post--", "pre--", "post++", "pre++") and strip_casts(x.kids[0]).k == "mem"
+                 and strip_casts(x.kids[0]).field in ("depth", "recursion_guard")]
+        if not steps:
+            continue
+        # direct re-entry, or through a helper of the same unit
+        hits = []
+        counter_fields = set(strip_casts(x.kids[0]).field for x in steps)
+
+        def charged(g, call):
+            """is `call` in g bracketed by janet_vm.stackn += <depth held> ... -= <the same>"""
+            order = {id(x): i for i, x in enumerate(g.nodes)}
+            held = set()
+            for x in g.nodes:
+                if x.k == "vardecl" and x.kids and any(y.k == "mem" and y.field in counter_fields for y in x.kids[0].walk()):
+                    held.add(x.name)
+            def is_charge(x, op):
+                return x.k == "asg" and x.op == op and is_mem(x.kids[0], "stackn", "JanetVM") and \
+                    any((y.k == "ref" and y.name in held) or (y.k == "mem" and y.field in counter_fields) for y in x.kids[1].walk())
+            before = [x for x in g.nodes if is_charge(x, "+=") and order[id(x)] < order[id(call)]]
+            after = [x for x in g.nodes if is_charge(x, "-=") and order[id(x)] > order[id(call)]]
+            return bool(before) and bool(after)
+        for c in fn.nodes:
+            if c.k != "call" or not c.callee:
+                continue
+            if c.callee in VM_ENTRIES:
+                hits.append((c, c.callee, charged(fn, c)))
+            else:
+                h = next((g for g in fn.tu.funcs.values() if g.name == c.callee), None)
+                if h is not None and h is not fn:
+                    for c2 in h.calls(*VM_ENTRIES):
+                        hits.append((c, "%s -> %s" % (h.name, c2.callee), charged(h, c2)))
+        seen = set()
+        for c, via, ok in hits:
+            key = via.split(" -> ")[-1] if " -> " not in via else via.replace(" -> ", ">")
+            if key in seen:
+                continue
+            seen.add(key)
+            n += 1
+            chk.instance(rule)
+            chk.analysed(fn)
+            if ok:
+                chk.ok(rule, "%s: the depth held is charged to janet_vm.stackn around %s" % (fn.name, via))
+                continue
+            chk.violation(rule, fn.tu.name, fn.name, "reentry:" + key, c.loc,
+                          "%s bounds its recursion with `%s`, which every activation starts afresh, and calls back into Janet code "
+                          "(%s): the callee can start %s again with a full budget, so nested activations multiply the limits and the "
+                          "native stack overflows before any guard fires" % (fn.name, strip_casts(steps[0].kids[0]).text(), via, fn.name))
     chk.floor(rule, 2, n)
